@@ -13,7 +13,7 @@ def big_phase(ctx, whats, tag="big"):
     t = time.time()
     exe = build(ctx, "drv_big", "drv_big.c", LIB, flags=["-std=gnu99", "-O1", "-D_GNU_SOURCE", "-fstack-protector-all"], libs=["-lm"])
     trace = ctx.work / f"{tag}.ndjson"
-    rc, out = sh([str(exe), str(trace), str(ctx.seed)] + whats, timeout=900)
+    rc, out = sh([str(exe), str(trace), str(ctx.seed)] + whats, timeout=3000)
     if rc == 124:
         violation(ctx, f"{tag}: the library did not come back within the time limit on a large container ({' '.join(whats)})", {"signature": "big:hang"})
         return
